@@ -24,9 +24,9 @@ def load_known():
         return known
     for line in open(KNOWN):
         line = line.strip()
-        m = re.match(r'known:\s+property=(\S+)\s+obligation=(\S+)\s+::\s*(.*)$', line)
+        m = re.match(r'known:\s+property=(\S+)\s+obligation=(\S+)\s+(?:names=\S+\s+)?::\s*(.*)$', line)
         if m:
-            known.append(dict(prop=m.group(1), obligation=m.group(2), what=m.group(3)))
+            known.append(dict(prop=m.group(1), obligation=m.group(2), what=m.group(3), raw=line))
     return known
 
 
@@ -186,8 +186,15 @@ def report(prop, tier, seed, spec, results, kani_results, wall):
         json.dump(ev, f, indent=1)
 
     # ---------------- output ----------------
+    printed = set()
     for k, oid in known_hits:
+        printed.add(k['what'])
         print('KNOWN-FINDING: property=%s %s [%s]' % (prop, k['what'], oid))
+    # findings that are built into an obligation as a named exception (e.g. a table entry known to deviate) are
+    # reported on every run: the obligation is checked everywhere else
+    for k in known:
+        if k['what'] not in printed and re.search(r'\bnames=', k.get('raw', '')):
+            print('KNOWN-FINDING: property=%s %s [%s]' % (prop, k['what'], k['obligation']))
     if status == 'violation':
         import replayer
         seen = set()
